@@ -62,6 +62,20 @@ Theorem C08_binding_any_width : forall (dsha : bytes -> bytes) br1 br2 p1 p2 lea
 Proof. exact binding_fixed_out. Qed.
 Print Assumptions C08_binding_any_width.
 
+(* SPV soundness against the block: an accepted (branch, position, leaf) with the branch length of the
+   block's tree and position naming index j carries exactly the j-th transaction hash of the block (and
+   the genuine branch) -- otherwise [collision] exhibits a collision.  No assumption on dsha. *)
+Theorem C08_verified_means_member : forall (dsha : bytes -> bytes) l br pos leaf r j,
+  merkle_root dsha l = Some r -> (j < length l)%nat ->
+  (pos mod 2 ^ Z.of_nat (length br) = Z.of_nat j)%Z ->
+  same_widths br (branch dsha l j) ->
+  fold_branch dsha br pos leaf = r ->
+  (leaf = nth j l [] /\ br = branch dsha l j) \/
+  exists x y, collision dsha br (branch dsha l j) pos (Z.of_nat j) leaf (nth j l []) = Some (x, y) /\
+              x <> y /\ dsha x = dsha y.
+Proof. exact verified_member. Qed.
+Print Assumptions C08_verified_means_member.
+
 (* Altering the transaction: a different raw transaction accepted with the same branch and position
    gives a collision (either the two transactions themselves or a pair found by [collision]). *)
 Theorem C08_tx_mutation : forall (dsha : bytes -> bytes) br pos raw1 raw2,
